@@ -325,7 +325,11 @@ public:
                         continue;
                     }
                 }
-                if (k == QLatin1String("inj")) {
+                if (k == QLatin1String("inj") && w.link() && !w.link()->encrypted && w.client->simSocket()->directTls) {
+                    // direct TLS: nothing a server writes before the handshake has completed is XMPP (a real TLS layer
+                    // would take it for handshake records and fail); the script waits
+                    w.probe("script_waits_for_direct_tls_handshake");
+                } else if (k == QLatin1String("inj")) {
                     if (auto *c = w.server->current()) {
                         if (c->gotHeader || w.profile.mute) {
                             const int k = (int)op.arg(0);
